@@ -47,6 +47,20 @@ MUTANTS = [
      "        if !self.marker.is_erased(item) {\n            None\n        } else {\n            Some(item)", "find: returns erased items, hides live ones"),
     ("sorted_deque", "sliding_deque/src/sorted_deque.rs", "        let ret = self.items.pop_back()?;\n        self.cleanup_back();",
      "        let ret = self.items.pop_back()?;", "pop_last: newly exposed erased items are not cleaned up"),
+    ("sorted_deque", "sliding_deque/src/sorted_deque.rs", "            if !self.marker.is_erased(item) {\n                to_drop = idx;",
+     "            if self.marker.is_erased(item) {\n                to_drop = idx;", "cleanup_front: stops at the first ERASED item (drops live ones)"),
+    ("sorted_deque", "sliding_deque/src/sorted_deque.rs", "                to_drop = idx;\n                break;", "                to_drop = idx + 1;\n                break;",
+     "cleanup_front: drops the first live item as well"),
+    ("hcobs", "hcobs/src/lib.rs", "        if window == STUFF_SEQUENCE {\n            return Some(idx);", "        if window == STUFF_SEQUENCE {\n            return Some(idx + 1);",
+     "find_stuff_sequence: reports the index of the FD"),
+    ("chunker", "hcobs/src/lib.rs", "    for (idx, window) in bytes.windows(2).enumerate() {", "    for (idx, window) in bytes.windows(3).enumerate() {",
+     "find_stuff_sequence: windows of 3 never equal the 2-byte stuff sequence (always None)"),
+    ("tlv_len", "rough_tlv/src/encoder.rs", "ret = ret.saturating_add(elements.len().saturating_mul(4));", "ret = ret.saturating_add(elements.len().saturating_mul(8));",
+     "compute_len: 8 bytes per tag"),
+    ("tlv_len", "rough_tlv/src/encoder.rs", "                if encoded_len > i32::MAX as usize {", "                if encoded_len >= i32::MAX as usize {",
+     "compute_len: rejects a value of exactly i32::MAX bytes"),
+    ("tlv_len", "rough_tlv/src/encoder.rs", "        if ret > i32::MAX as usize {\n            // This also handles saturation.", "        if ret > u32::MAX as usize {\n            // This also handles saturation.",
+     "compute_len: total limit u32::MAX instead of i32::MAX"),
     ("chunker", "hcobs/src/stream_reader.rs", "initial_length.saturating_add(io_block_size)", "initial_length.max(io_block_size)",
      "pump: reads no further than the carried bytes when the block size is small (F1 again)"),
 ]
